@@ -1300,11 +1300,16 @@ class JavaFE:
         for f, (fn, fd) in zip(packet.fields, fl):
             sem = self.spec.resolve(f)
             v = msg.v[f.name]
+            is_list = isinstance(fd, str) and ('java/util/List' in fd or 'java/util/ArrayList' in fd or 'java/util/Collection' in fd)
             if f.repeat:
+                if isinstance(fd, str) and not is_list:
+                    raise MissingMember('packet %s: the member of repeated field %s is no list (Java type %s)' % (packet.name, f.name, fd))
                 lst = JList()
                 lst.items = [self.elem_to_lang(sem, x, None, c) for x in v]
                 o.f[fn] = lst
             else:
+                if is_list:
+                    raise MissingMember('packet %s: the member of plain field %s is a list (Java type %s)' % (packet.name, f.name, fd))
                 o.f[fn] = self.elem_to_lang(sem, v, fd, c)
         return o
 
